@@ -356,8 +356,67 @@ func (x *Exec) external(fn *ssa.Function, args []Val) (Val, bool) {
 			res = x.strConcat(res, e.(Str))
 		}
 		return res, true
-	case "strings.Index", "strings.IndexByte", "strings.ToLower", "strings.ToUpper", "strings.TrimSpace", "strings.Split":
-		panic(unsupported{name})
+	case "strings.IndexByte", "internal/bytealg.IndexByteString", "internal/stringslite.IndexByte":
+		return x.strIndexOf(args[0].(Str), Str{B: []Int{args[1].(Int)}}, false), true
+	case "strings.LastIndexByte":
+		return x.strIndexOf(args[0].(Str), Str{B: []Int{args[1].(Int)}}, true), true
+	case "strings.Index", "internal/bytealg.IndexString", "internal/stringslite.Index":
+		return x.strIndexOf(args[0].(Str), args[1].(Str), false), true
+	case "strings.LastIndex":
+		return x.strIndexOf(args[0].(Str), args[1].(Str), true), true
+	case "strings.ContainsRune", "strings.IndexRune":
+		r := x.subst(args[1].(Int))
+		if !r.conc() {
+			panic(unsupported{name + " with symbolic rune"})
+		}
+		idx := x.strIndexOf(args[0].(Str), strOf(string(rune(r.sval()))), false)
+		if name == "strings.IndexRune" {
+			return idx, true
+		}
+		return x.binInt(token.GEQ, idx, mkInt(0)), true
+	case "strings.ContainsAny", "strings.IndexAny":
+		chars, ok := args[1].(Str).concrete()
+		if !ok {
+			panic(unsupported{name + " with symbolic character set"})
+		}
+		var best Val = mkInt(-1)
+		for _, r := range chars {
+			idx := x.strIndexOf(args[0].(Str), strOf(string(r)), false)
+			// minimum of the non-negative indices
+			bi := best.(Int)
+			take := x.and(x.binInt(token.GEQ, idx, mkInt(0)).(Bool), x.or(x.binInt(token.LSS, bi, mkInt(0)).(Bool), x.binInt(token.LSS, idx, bi).(Bool)))
+			best = x.ite(take, idx, bi)
+		}
+		if name == "strings.IndexAny" {
+			return best, true
+		}
+		return x.binInt(token.GEQ, best.(Int), mkInt(0)), true
+	case "strings.Count":
+		if a, ok := concAll(args, 0, 1); ok {
+			return mkInt(int64(strings.Count(a[0], a[1]))), true
+		}
+		sub := args[1].(Str)
+		if len(sub.B) != 1 {
+			panic(unsupported{"strings.Count with a symbolic multi-byte pattern"})
+		}
+		var cnt Val = mkInt(0)
+		for _, b := range args[0].(Str).B {
+			e := x.binInt(token.EQL, b, sub.B[0]).(Bool)
+			cnt = x.binInt(token.ADD, cnt.(Int), x.ite(e, mkInt(1), mkInt(0)).(Int))
+		}
+		return cnt, true
+	case "strings.ToLower", "strings.ToUpper", "strings.TrimSpace", "strings.Title", "strings.Fields", "strings.Split", "strings.EqualFold":
+		if a, ok := concAll(args, 0); ok {
+			switch name {
+			case "strings.ToLower":
+				return strOf(strings.ToLower(a[0])), true
+			case "strings.ToUpper":
+				return strOf(strings.ToUpper(a[0])), true
+			case "strings.TrimSpace":
+				return strOf(strings.TrimSpace(a[0])), true
+			}
+		}
+		panic(unsupported{name + " on a symbolic string"})
 	case "fmt.Errorf":
 		parts := x.strParts(args)
 		return x.errorValue(opaque("errorf", parts...)), true
@@ -483,6 +542,30 @@ func (x *Exec) strContains(s, sub Str) Bool {
 		res = x.or(res, x.strEq(Str{B: s.B[i : i+m]}, sub))
 	}
 	return res
+}
+
+// strIndexOf: index of the first (last) occurrence of sub in s, or -1, as a term.
+func (x *Exec) strIndexOf(s, sub Str, last bool) Int {
+	x.needContent(s, "strings.Index")
+	x.needContent(sub, "strings.Index")
+	n, m := len(s.B), len(sub.B)
+	if m == 0 {
+		if last {
+			return mkInt(int64(n))
+		}
+		return mkInt(0)
+	}
+	var res Val = mkInt(-1)
+	if !last {
+		for i := n - m; i >= 0; i-- {
+			res = x.ite(x.strEq(Str{B: s.B[i : i+m]}, sub), mkInt(int64(i)), res)
+		}
+	} else {
+		for i := 0; i+m <= n; i++ {
+			res = x.ite(x.strEq(Str{B: s.B[i : i+m]}, sub), mkInt(int64(i)), res)
+		}
+	}
+	return res.(Int)
 }
 
 func (x *Exec) bytesBuffer(method string, args []Val) Val {
